@@ -6,7 +6,7 @@ LEVEL = "exploration"
 RUNS = {"quick": 4000, "thorough": 100000}
 BUDGET_S = {"quick": 50, "thorough": 840}
 CHUNK = 50
-RULE = ('One evaluation = one seeded history with `gwf clean` (every combination of --all, -f, patterns, prompt answers y/n/empty; protect sets spelled plain, ./x, zz/../x, absolute, absolute-unnormalised; files that are outputs of one and inputs of another target; one unlink failing with EACCES in a quarter of the commands). Oracle M_clean from a before/after snapshot: removed == existing unprotected outputs of the selected non-excluded targets exactly, everything else byte- and mtime-identical, tracked jobs untouched, hashes of cleaned targets forgotten, declined prompt => nothing changed. Reference-model conformance over command histories rather than a schedule/fault property.')
+RULE = ('One evaluation = one seeded history with `gwf clean` (every combination of --all, -f, patterns, prompt answers y/n/empty; protect sets spelled plain, ./x, zz/../x, absolute, absolute-unnormalised; files that are outputs of one and inputs of another target; declared outputs that are symbolic links to data files belonging to nobody; one unlink failing with EACCES in a quarter of the commands). Oracle M_clean from a before/after snapshot: removed == existing unprotected outputs of the selected non-excluded targets exactly, everything else byte- and mtime-identical, tracked jobs untouched, hashes of cleaned targets forgotten, declined prompt => nothing changed. Reference-model conformance over command histories rather than a schedule/fault property.')
 PROFILE = dict(
     nontrivial_probes=['clean_commands'],
     backends=["slurm", "slurm", "sge", "lsf", "local"],
